@@ -586,6 +586,7 @@ ModelEvent(h, st) ==
           IF MapFileOk(a.lines, a.opts) /\ HeaderFirst(a.lines, a.opts) /\ InDomainC01(pre)
              /\ (a.json \/ SeqSet(a.opts.sc) \subseteq {"taxonomy"})
              /\ (a.json \/ HomogeneousKinds(a.lines, a.opts))
+             /\ (a.json \/ ListsNonEmpty(a.lines, a.opts))
              /\ (a.json \/ SeqSet(Ids(pre, a.axis)) \subseteq {RefMap(a.lines, a.opts)[k][1] : k \in 1..Len(RefMap(a.lines, a.opts))})
           THEN LET r == RefMap(a.lines, a.opts)
                    md == [k \in 1..Len(r) |-> <<r[k][1], SetToSeq(r[k][2])>>]
@@ -920,7 +921,7 @@ StepsFor(call, h, recv, res, full) ==
                                                                        r3 \in {r \in rows : Len(r.fields) # 3}}
                               ELSE {<<r1, hd, r2>> : hd \in hdrs, r1 \in rows, r2 \in rows})
                \* the long files are sampled before they are multiplied by the options
-               fs == IF full THEN Sample(files, 240, 5) ELSE files
+               fs == IF full THEN Sample(files, 240, 5) ELSE Sample(files, 70, 3)
            IN {St(call, recv, res, [lines |-> ls, opts |-> o, axis |-> ax, other_header |-> oh, json |-> js]) :
                  ls \in fs, o \in opts,
                  oh \in (IF full THEN {<<>>, <<"ID", "zz1">>} ELSE {<<"ID", "zz1">>}), js \in BOOLEAN}
